@@ -366,6 +366,36 @@ func rulePair(c *Ctx, m *ttModel) {
 	allowedStop := func(f *ssa.Function) bool {
 		return f.Signature.Recv() != nil && (f.Name() == "AddClosed" || f.Name() == "RemoveNatEntry")
 	}
+	// apiOf: the report functions through which f is reached: f itself when it is one, otherwise the callers of f that belong to
+	// the same connection-metrics type (private helpers such as "stop the tunnel of this connection"), two levels up at most
+	var apiOf func(f *ssa.Function, allowed func(*ssa.Function) bool, d int) ([]*ssa.Function, bool)
+	apiOf = func(f *ssa.Function, allowed func(*ssa.Function) bool, d int) ([]*ssa.Function, bool) {
+		if allowed(f) {
+			return []*ssa.Function{f}, true
+		}
+		if d >= 2 || ownerT(f) == "" {
+			return nil, false
+		}
+		var out []*ssa.Function
+		sites := p.CallSitesOf(f)
+		if len(sites) == 0 {
+			return nil, false
+		}
+		for _, cs := range sites {
+			if p.IsTestSupport(cs.Fn) {
+				continue
+			}
+			if ownerT(cs.Fn) != ownerT(f) {
+				return nil, false
+			}
+			up, ok := apiOf(cs.Fn, allowed, d+1)
+			if !ok {
+				return nil, false
+			}
+			out = append(out, up...)
+		}
+		return out, len(out) > 0
+	}
 	type site struct {
 		eng.Site
 		start bool
@@ -379,7 +409,8 @@ func rulePair(c *Ctx, m *ttModel) {
 				continue
 			}
 			sites = append(sites, site{s, true, e})
-			c.CheckAt("PAIR", "start-caller:"+short(s.Fn), s.Ins, allowedStart(s.Fn) && !isEntry(m.stops, e), "a tunnel is started from a function that is neither the authentication report nor the UDP entry constructor (unauthenticated connections would accrue tunnel time, or starts lose their matching stop)")
+			_, okAPI := apiOf(s.Fn, allowedStart, 0)
+			c.CheckAt("PAIR", "start-caller:"+short(s.Fn), s.Ins, okAPI && !isEntry(m.stops, e), "a tunnel is started from a function that is neither the authentication report nor the UDP entry constructor (unauthenticated connections would accrue tunnel time, or starts lose their matching stop)")
 		}
 	}
 	for _, e := range m.stops {
@@ -389,7 +420,8 @@ func rulePair(c *Ctx, m *ttModel) {
 				continue
 			}
 			sites = append(sites, site{s, false, e})
-			c.CheckAt("PAIR", "stop-caller:"+short(s.Fn), s.Ins, allowedStop(s.Fn), "a tunnel is stopped from a function that is neither the close report nor the entry removal")
+			_, okAPI := apiOf(s.Fn, allowedStop, 0)
+			c.CheckAt("PAIR", "stop-caller:"+short(s.Fn), s.Ins, okAPI, "a tunnel is stopped from a function that is neither the close report nor the entry removal")
 		}
 	}
 	c.Floor("PAIR", "start/stop call sites", len(sites), 4)
@@ -431,29 +463,85 @@ func rulePair(c *Ctx, m *ttModel) {
 			c.CheckAt("PAIR", "key-derivation:"+key, s.Ins, false, fmt.Sprintf("the (IP, key) used to start/stop is not the result of exactly one key function call on this path (%d found)", len(kcs)))
 			continue
 		}
-		kc := kcs[0]
-		keyFns[eng.CalleeName(&kc.Call)] = true
-		// whatever consumes the key in the key call's function runs only when the key function succeeded
-		if ei := errorResultIndex(kc.Call.Signature()); ei >= 0 {
-			succ, _ := p.SuccessEdges(kc.Parent(), []ssa.CallInstruction{kc}, ei)
-			okG := len(succ) > 0
-			nUse := 0
-			for _, cl := range eng.Calls(kc.Parent()) {
-				uses := false
-				for _, a := range cl.Common().Args {
-					if p.AnyFrom(a, eng.OriginOpts{ThroughConvert: true, ThroughFieldLoad: true}, func(v ssa.Value) bool { return resultOfCall(v, kc, 0) }) {
-						uses = true
-					}
-				}
-				if uses {
-					nUse++
-					if !eng.Cut(kc.Parent(), cl.Block(), succ) {
-						okG = false
+		// a key function that merely wraps another one (computes the key of "this connection"): follow to the innermost call,
+		// checking at every level that the key is used only when its producer succeeded
+		chain := []*ssa.Call{kcs[0]}
+		for d := 0; d < 3; d++ {
+			g := chain[len(chain)-1].Call.StaticCallee()
+			var inner *ssa.Call
+			if g != nil {
+				for _, cl := range eng.Calls(g) {
+					if call, ok := cl.(*ssa.Call); ok && isKeyFn(call) {
+						for _, r := range eng.Returns(g) {
+							if len(r.Results) > 0 && p.AnyFrom(r.Results[0], eng.OriginOpts{ThroughConvert: true, ThroughFieldLoad: true}, func(v ssa.Value) bool { return resultOfCall(v, call, 0) }) {
+								inner = call
+							}
+						}
 					}
 				}
 			}
-			c.CheckAt("PAIR", "key-derivation-checked:"+key, s.Ins, okG && nUse > 0, "start/stop is reachable when the key function failed")
+			if inner == nil {
+				break
+			}
+			chain = append(chain, inner)
 		}
+		kc := chain[len(chain)-1]
+		if len(chain) > 1 {
+			// the wrapper is a method of the connection-metrics object: its receiver is that object
+			if g := kc.Parent(); g.Signature.Recv() != nil {
+				R = eng.TypeName(g.Signature.Recv().Type())
+			}
+		}
+		keyFns[eng.CalleeName(&kc.Call)] = true
+		okG, nUse := true, 0
+		for _, link := range chain {
+			var succ eng.EdgeSet
+			if ei := errorResultIndex(link.Call.Signature()); ei >= 0 {
+				succ, _ = p.SuccessEdges(link.Parent(), []ssa.CallInstruction{link}, ei)
+			} else {
+				// (key, ok bool)
+				for _, r := range *link.Referrers() {
+					if ex, ok := r.(*ssa.Extract); ok && ex.Type().String() == "bool" {
+						succ, _ = eng.BoolEdges(link.Parent(), func(v ssa.Value) bool { return v == ssa.Value(ex) })
+					}
+				}
+			}
+			if len(succ) == 0 {
+				okG = false
+				continue
+			}
+			isUse := func(v ssa.Value) bool {
+				return p.AnyFrom(v, eng.OriginOpts{ThroughConvert: true, ThroughFieldLoad: true}, func(x ssa.Value) bool { return resultOfCall(x, link, 0) })
+			}
+			for _, b := range link.Parent().Blocks {
+				for _, ins := range b.Instrs {
+					uses := false
+					switch u := ins.(type) {
+					case ssa.CallInstruction:
+						for _, a := range u.Common().Args {
+							if isUse(a) {
+								uses = true
+							}
+						}
+					case *ssa.Return:
+						// returned together with a success indication: a (key, true) / (key, nil) return
+						if len(u.Results) > 1 && isUse(u.Results[0]) {
+							last := u.Results[len(u.Results)-1]
+							if cst, ok := last.(*ssa.Const); ok && (cst.IsNil() || cst.String() == "true:bool") {
+								uses = true
+							}
+						}
+					}
+					if uses {
+						nUse++
+						if !eng.Cut(link.Parent(), b, succ) {
+							okG = false
+						}
+					}
+				}
+			}
+		}
+		c.CheckAt("PAIR", "key-derivation-checked:"+key, s.Ins, okG && nUse > 0, "start/stop is reachable when the key function failed")
 		// the key function's arguments, expressed in the calling function
 		lift := func(v ssa.Value) ssa.Value {
 			for d := 0; d < 3; d++ {
@@ -525,26 +613,36 @@ func rulePair(c *Ctx, m *ttModel) {
 			stopF[R] = got
 		}
 		// stop from the close report only for authenticated connections
-		if !s.start && s.Fn.Name() == "AddClosed" && got.key != "" {
-			nonEmpty := eng.EdgeSet{}
-			for _, b := range s.Fn.Blocks {
-				iff, ok := b.Instrs[len(b.Instrs)-1].(*ssa.If)
-				if !ok {
+		if !s.start && got.key != "" {
+			apis, _ := apiOf(s.Fn, allowedStop, 0)
+			for _, api := range apis {
+				if api.Name() != "AddClosed" {
 					continue
 				}
-				bo, ok := iff.Cond.(*ssa.BinOp)
-				if !ok || !eng.IsFieldLoad(bo.X, R, got.key) {
-					continue
-				}
-				if sv, ok := eng.ConstString(bo.Y); ok && sv == "" {
-					if bo.Op == token.NEQ {
-						nonEmpty[eng.Edge{From: b, To: b.Succs[0]}] = true
-					} else if bo.Op == token.EQL {
-						nonEmpty[eng.Edge{From: b, To: b.Succs[1]}] = true
+				areg := c.NewRegion(api, 3, inProm)
+				gd := c.NewGuard(func(fn *ssa.Function) eng.EdgeSet {
+					nonEmpty := eng.EdgeSet{}
+					for _, b := range fn.Blocks {
+						iff, ok := b.Instrs[len(b.Instrs)-1].(*ssa.If)
+						if !ok {
+							continue
+						}
+						bo, ok := iff.Cond.(*ssa.BinOp)
+						if !ok || !eng.IsFieldLoad(bo.X, R, got.key) {
+							continue
+						}
+						if sv, ok := eng.ConstString(bo.Y); ok && sv == "" {
+							if bo.Op == token.NEQ {
+								nonEmpty[eng.Edge{From: b, To: b.Succs[0]}] = true
+							} else if bo.Op == token.EQL {
+								nonEmpty[eng.Edge{From: b, To: b.Succs[1]}] = true
+							}
+						}
 					}
-				}
+					return nonEmpty
+				})
+				c.CheckAt("PAIR", "stop-only-when-authenticated:"+short(api), s.Ins, areg.CutDeep(s.Ins, gd), "the close report stops a tunnel for connections that never authenticated (no access-key != \"\" guard)")
 			}
-			c.CheckAt("PAIR", "stop-only-when-authenticated:"+key, s.Ins, len(nonEmpty) > 0 && eng.Cut(s.Fn, s.Ins.Block(), nonEmpty), "the close report stops a tunnel for connections that never authenticated (no access-key != \"\" guard)")
 		}
 	}
 	for R, sf := range startF {
